@@ -228,7 +228,8 @@ def build(ctx, conv, shape, *, bounds='none', as_coords=True, nan_cells=None, da
         face_x = coord_array(ctx, 'fx', (ny, nx), fflag, nominal=(nnx[:-1, :-1] + nnx[1:, 1:]) / 2 + 0.0625)
         face_y = coord_array(ctx, 'fy', (ny, nx), fflag, nominal=(nny[:-1, :-1] + nny[1:, 1:]) / 2 + 0.0625)
         P.ds = builders.shoc_standard(ny, nx, node_x=_plain(node_x), node_y=_plain(node_y), face_x=face_x, face_y=face_y,
-                                      as_coords=as_coords, data_vars=data_vars, **_shoc_edge_coords(ctx, ny, nx))
+                                      as_coords=as_coords, data_vars=data_vars, x_transposed=tuple((mesh_opts or {}).get('x_transposed', ())),
+                                      **_shoc_edge_coords(ctx, ny, nx))
         P.convention = ShocStandard(P.ds)
         P.shape = (ny, nx)
         kind = next(k for k in P.convention.grid_kinds if k.value == 'face')
